@@ -880,3 +880,17 @@ RULES["order"] = rule_order
 for _s in PROPS["C08"]["streams"]:
     if _s["name"] == "order":
         _s["rule"] = "order"
+
+# C17 (and the properties the reuse histories also run under): the re-initialisation discipline of everything that is
+# reused, regenerated from the source on every run (tools/extract/machines.go -> Gen/Machines.lean)
+PROPS["C17"]["theorems"] += ["Refmt.C17Machines.requisition_zero", "Refmt.C17Machines.release_grow", "Refmt.C17Machines.bind_forgets",
+    "Refmt.C17Machines.first_machine_independent_of_history", "Refmt.C17Machines.every_requisition_zero", "Refmt.C17Machines.writeTip_keeps_parents",
+    "Refmt.C17Machines.slab_discipline_as_modelled", "Refmt.C17Machines.machine_fields_as_audited", "Refmt.C17Machines.every_field_accounted",
+    "Refmt.C17Machines.carried_exact"]
+PROPS["C17"]["extra_modules"] = PROPS["C17"].get("extra_modules", []) + ["RefmtProofs.Props.C17Machines"]
+PROPS["C17"]["claim"] += (" Since C17Machines the object layer's reuse is tied statically as well: a model of the slab (grow appends a zero row, "
+    "release drops the tip, Bind forgets everything) in which a requisitioned row is the zero row after ANY history and two instances with "
+    "any two pasts agree after Bind; the source text of grow / release / Bind and a table of every field of every struct with a Reset method "
+    "(obj machines, cbor / json / pretty encoders and decoders: assigned by Reset at top level, under a condition, never; assigned at every "
+    "yield site, some, none) are regenerated from the working tree on every run and must equal the audited ones; every field is written "
+    "for every use or is one of 15 audited carried fields, each with its reason (C17Machines.carried).")
